@@ -274,6 +274,8 @@ def run_tv(ctx, trace_file, label):
             detail += "; mismatch in %s; model result %s" % (w["what"], json.dumps(w.get("model_res")))
             if w["what"] == "views":
                 detail += "; " + _view_diff(w.get("model_views"), bad_line.get("views"))
+            if w.get("conflict"):
+                detail += "; conflicting <<structure term, raw digests>> pairs: " + json.dumps(w["conflict"][:2])[:1500]
         ctx.violation(rp, detail)
         accepted_events += sum(len(p) for p in pending[:k])
         pending = pending[k + 1:]
@@ -347,6 +349,8 @@ def run(ctx):
     nterms = 0
     opcount = {}
     for si, stack in enumerate(stacks):
+        if os.environ.get("VERIF_ONLY_STACK") and stack != os.environ["VERIF_ONLY_STACK"]:  # debugging aid only
+            continue
         progs = gen_programs(ctx, nprog, depth, plan["ops"], ctx.seed * 1000 + si, stack, plan.get("gen"))
         pf = ctx.path("programs-%s.ndjson" % stack)
         vlib.write_ndjson(pf, [{"id": i + 1, "calls": p} for i, p in enumerate(progs)])
